@@ -468,6 +468,36 @@ theorem finalizer_no_pending (s : State) (hs : List Handler) (upto : Nat)
   rw [exec_findFinally _ _ s hs hc hh (by omega)]
   simp only [hpos, if_true, exec_bumpIp, exec_pure, exec_bind]
 
+/-- THROW 0 at the end of a finally block whose statement has a pending error (the error was
+    raised in the try or catch body and no catch took it, or it was recorded while another
+    finally ran): the statement's handler is removed and the ORIGINAL error is thrown again,
+    to the next enclosing handler — the pending outcome survives the finally block. -/
+theorem throw0_rethrows_pending (s : State) (h : Handler) (r : List Handler) (e : Addr)
+    (hc : s.curFrame < s.frames.size) (hh : handlersOf s = some (h :: r))
+    (hop : exec (opnd1 1) s = (.ok 0, s)) (herr : h.err = some e) :
+    exec execThrow s =
+      (match exec (do let fuel ← throwFuel; throwF fuel e)
+          ({ s with ip := s.ip + 1, frames := s.frames.modify s.curFrame popHandler } : State) with
+       | (.ok none, s') => (.ok .next, s')
+       | (.ok (some a), s') => (.ok .ret, { s' with err := some (.rt a) })
+       | (.error x, s') => (.error x, s')) := by
+  have hl : lastHandler (({ s with ip := s.ip + 1 } : State).frames[({ s with ip := s.ip + 1 } : State).curFrame]!) = some h :=
+    lastHandler_of _ h r (by simpa [handlersOf] using hh)
+  unfold execThrow
+  simp only [exec_bind, hop, exec_bumpIp, exec_curFrame, beq_self_eq_true, if_true, hl, herr, exec_setCurFrame]
+  rcases hr : exec throwFuel ({ s with ip := s.ip + 1, frames := s.frames.modify s.curFrame popHandler } : State) with ⟨r1, s1⟩
+  cases r1 with
+  | error x => simp [hr]
+  | ok fuel =>
+    simp only [hr]
+    rcases hr2 : exec (throwF fuel e) s1 with ⟨r2, s2⟩
+    cases r2 with
+    | error x => simp [hr2]
+    | ok o =>
+      cases o with
+      | none => simp [hr2, exec_pure]
+      | some a => simp [hr2, exec_bind, exec_modS, exec_pure]; rfl
+
 /-- the source-level statement (not proved; tested by stream `sem`): for every script of the
     try/loop/call fragment, the implementation's log and outcome are those of the reference
     semantics, in which `finally` runs exactly once per exit by definition. -/
